@@ -563,7 +563,7 @@ func genC05(cfg runCfg, e *emitter, rng *rand.Rand) {
 		enumSmall(e, rng, blocks, rows, tierN(cfg, 1500, 10000), true)
 	}
 	// (b) histories in which every block is applied in a non-canonical encoding
-	for hI := 0; hI < tierN(cfg, 120, 2500); hI++ {
+	for hI := 0; hI < tierN(cfg, 240, 2500); hI++ {
 		e.line("CASE enc%d", hI)
 		e.line("RESET")
 		rf := &refForest{}
